@@ -1,8 +1,9 @@
 ----------------------------- MODULE MC_WasmAbi -----------------------------
 EXTENDS WasmAbi, Json
-MCStructDefs == [S2 |-> <<P("u8"), P("u16")>>, S3 |-> <<P("u32"), P("u8"), P("u16")>>, SW |-> <<P("u8"), P("i64")>>]
+\* N1: a newtype (one primitive): a struct whose only field is N1 is still a single scalar (newtype chains)
+MCStructDefs == [S2 |-> <<P("u8"), P("u16")>>, S3 |-> <<P("u32"), P("u8"), P("u16")>>, SW |-> <<P("u8"), P("i64")>>, N1 |-> <<P("u32")>>]
 FieldTypes == {P(p) : p \in Prims} \cup {EnumT, K("opq"),
-               SliceT("u8", "imm"), StructT("S2"), StructT("S3"), StructT("SW"),
+               SliceT("u8", "imm"), StructT("S2"), StructT("S3"), StructT("SW"), StructT("N1"),
                OptT("dipl", P("u8")), OptT("dipl", P("u32")), OptT("dipl", P("bool")), OptT("dipl", P("i64")), OptT("dipl", P("f64")),
                OptT("dipl", StructT("S2"))}
 CONSTANT MaxFields
